@@ -22,6 +22,9 @@ def run(res, pool, tier, seed):
     jobs.append(dict(module="MC_BodyBody.tla", tag="nested", invariants=["Typed", "Symmetric", "Emit"], timeout=3600, batch=40,
                      constants=dict(NL2=4, SA=6, OFF=2, GENK=set(), NGEN=1, S=2, BODIES1={"cube", "octa", "ppyr"}, BODIES2={"cube", "tet2", "sq", "triObl"},
                                     T=1, SEED=sd + 3, NSHARD=8 if q else 1)))
+    jobs.append(dict(module="MC_BodyBody.tla", tag="generic-stacked", invariants=["Typed", "Symmetric", "Emit"], timeout=3600, batch=40,
+                     constants=dict(NL2=4, SA=1, OFF=0, GENK=set(), NGEN=1, S=1, BODIES1={"gprismA", "gtriA"}, BODIES2={"gprismB", "gtriB", "cube", "box"},
+                                    T=2, SEED=sd + 4, NSHARD=1)))
     engine.run_jobs(res, jobs, pool)
     import traces
     traces.run_for(res, ["unit_tests", "driver"], {"C04"}, seed=seed + 9, nsessions=250 if q else 2500)
@@ -38,6 +41,8 @@ def replay_case(case, tag, rng, tier):
     cells = [(a["k"], b["k"]), (b["k"], a["k"])]
     out["cls"] = "%s|%s|%s" % (a["k"], b["k"], exp["k"])
     pose = common.poses_for((a, b, exp), rng, 1, s)[rng.randint(0, 1)]
+    if tag == "generic-stacked" and rng.random() < 0.8:
+        pose = common.p5_pose(rng, common.all_points(a, b), s)
     num = common.num_for(rng, pose, (a, b))
     la, lb = common.build_variant(a, pose, num, rng), common.build_variant(b, pose, num, rng)
     calls = [("func", a, b, lambda: G.intersection(la, lb)), ("func", b, a, lambda: G.intersection(lb, la))]
